@@ -36,7 +36,7 @@ theorem queueRest_ext (pr : PrInfo) : ∀ (ds : List Dest) {l l' : Loc} {prevQ :
     | none => simp [hw] at h
     | some wc =>
       rw [hw] at h; simp only at h
-      cases hm : l.merge (.q d) [wc, prevQ] with
+      cases hm : l.mergeN pr.noOct (.q d) wc prevQ with
       | none => simp [hm] at h
       | some l1 =>
         rw [hm] at h; simp only at h
@@ -46,7 +46,7 @@ theorem queueRest_ext (pr : PrInfo) : ∀ (ds : List Dest) {l l' : Loc} {prevQ :
           rcases hx with rfl | rfl
           · exact hl.valid _ _ hw
           · exact hp
-        obtain ⟨hl1, hext1, _, _, n, _, hn, _, _⟩ := Loc.merge_spec hl hs hm
+        obtain ⟨hl1, hext1, _, _, n, _, hn, _, _⟩ := Loc.mergeN_spec hl hs hm
         rw [hn] at h; simp only at h
         have hnlt := hl1.valid _ _ hn
         have hl1' : Loc.OK { l1 with refs := l1.refs.set (.qw pr.id d pr.src) n } := ⟨hl1.wf, hl1.valid.set hnlt⟩
